@@ -236,6 +236,31 @@ def run_case(case):
                     return ~((a >= 1e-2 * (1 - 4 * eps)) & np.isfinite(a)).all(1), "scale >= min_scale"
 
                 sweep(o, lambda o: o.scale.arr, 1, lambda u: u.scale, ms_ok, "flows' default transformer scale")
+                # ... and whatever values ALL the arrays take that the conditioner parameterises / the loops train (the partition the
+                # library itself uses): a min_scale offset that is not frozen would be one of them
+                params_, static_ = eqx.partition(o, eqx.is_inexact_array, is_leaf=lambda l: isinstance(l, wrappers.NonTrainable))
+                leaves_, treedef_ = jax.tree_util.tree_flatten(params_)
+                sizes_ = [int(l.size) for l in leaves_]
+                k_ = sum(sizes_)
+                tr += 1
+                if k_ > 5:
+                    add("min-scale transformer has more trainable entries than expected", f"flows' default transformer exposes {k_} trainable entries: {[jax.tree_util.keystr(p_) for p_, _ in jax.tree_util.tree_leaves_with_path(params_)]}", {})
+                else:
+                    G_ = _grid(k_, dtype)
+
+                    def rebuild(v):
+                        out_, off_ = [], 0
+                        for l_, n_ in zip(leaves_, sizes_):
+                            out_.append(v[off_:off_ + n_].reshape(l_.shape).astype(l_.dtype))
+                            off_ += n_
+                        return unwrap(eqx.combine(jax.tree_util.tree_unflatten(treedef_, out_), static_)).scale
+
+                    sc_ = np.asarray(eqx.filter_jit(lambda g: jax.vmap(rebuild)(g))(jnp.asarray(G_)), float).reshape(len(G_), -1)
+                    tr += len(G_)
+                    bad_ = ~((sc_ >= 1e-2 * (1 - 4 * eps)) & np.isfinite(sc_)).all(1)
+                    if bad_.any():
+                        i_ = int(np.argmax(bad_))
+                        add("scale >= min_scale for every value of the transformer's trainable arrays", f"flows' default transformer: trainable arrays {[jax.tree_util.keystr(p_) for p_, _ in jax.tree_util.tree_leaves_with_path(params_)]} = {G_[i_].tolist()} -> scale {sc_[i_].tolist()} < min_scale 0.01 ({int(bad_.sum())}/{len(bad_)} grid points)", {"raw": G_[i_].tolist()})
             elif kind == "bnaf_linear":
                 from flowjax.bijections.block_autoregressive_network import block_autoregressive_linear
 
